@@ -70,7 +70,7 @@ func (t *Thread) GetAttr(name string) (Object, bool) {
 func (t *Thread) Wait(ctx context.Context) Object {
 	select {
 	case <-ctx.Done():
-		return Errorf("wait error: %s", ctx.Err())
+		return NewError(fmt.Errorf("wait error: %w", ctx.Err()))
 	case <-t.done:
 		return t.result
 	}
